@@ -12,7 +12,7 @@ for f in sorted(glob.glob('/var/tmp/verify_seed_*.log'), key=os.path.getmtime):
 only = sys.argv[1:] 
 for src in sorted(glob.glob(os.path.join(V, 'seeded', '_incoming', 'C*', 'change*'))):
     prop = src.split('/')[-2]
-    k = src[-1]
+    k = re.search(r'change(\d+)$', src).group(1)
     sid = '%s-%s' % (prop, k)
     if only and sid not in only and prop not in only:
         continue
